@@ -6,12 +6,15 @@ pid = sys.argv[1]
 rnd = sys.argv[2] if len(sys.argv) > 2 else ""          # "" = round 1, "w2" = round 2
 src = f"/tmp/mut/{pid}_{rnd}out" if rnd else f"/tmp/mut/{pid}_out"
 wt = f"/tmp/mut/{pid}_{rnd}" if rnd else f"/tmp/mut/{pid}"
+NEUTRAL = rnd == "neutral"      # harmless rewrites: /tmp/neut/<ID>_out/n<k>/ -> controls/<ID>_n<k>/
+if NEUTRAL:
+    src, wt, rnd = f"/tmp/neut/{pid}_out", f"/tmp/neut/{pid}", ""
 base = subprocess.run(["git", "-C", wt, "rev-parse", "--short", "HEAD"], capture_output=True, text=True).stdout.strip()
 for k in sorted(os.listdir(src)):
     d = os.path.join(src, k)
     if not (os.path.isdir(d) and os.path.exists(os.path.join(d, "patch.diff"))):
         continue
-    dst = os.path.join(HERE, "seeded", f"{pid}_{rnd}{k}" if rnd else f"{pid}_{k}")
+    dst = os.path.join(HERE, "controls" if NEUTRAL else "seeded", f"{pid}_{rnd}{k}" if rnd else f"{pid}_{k}")
     os.makedirs(dst, exist_ok=True)
     for f in ("patch.diff", "demo.py", "meta.json"):
         if os.path.exists(os.path.join(d, f)):
@@ -23,6 +26,8 @@ for k in sorted(os.listdir(src)):
         meta = {}
     meta.setdefault("property", pid)
     meta["base"] = base
+    if NEUTRAL:
+        meta["expected"] = "OK (the property still holds; an alarm here is a false alarm or, at best, no-failing-input-found)"
     meta["origin"] = ("independent sub-agent given only the property text and a scratch worktree of /repo"
                       + (" (round 2: asked for cooperating edits, call sequences, Python subtleties, rare branches)" if rnd else ""))
     json.dump(meta, open(mp, "w"), indent=1)
